@@ -423,71 +423,82 @@ func c06Endpoints(t *testing.T, rep *hx.Report, rng *hx.RNG, env hx.Env) {
 		for _, proto := range []string{"icmp", "udp", "tcp"} {
 			target := netip.MustParseAddr(hx.Pick(rng, []string{"198.51.100.9", "203.0.113.77", "8.8.4.4"}))
 			port := uint16(rng.Range(1, 65535))
-			var wire *memWire
-			packets.VerifSetSourceSinkFactory(func(addr netip.Addr, _ bool) (packets.SourceSinkHandle, bool, error) {
-				wire = newMemWire()
-				wire.blockWhenEmpty = true
-				return wire.Handle(), true, nil
-			})
-			var src, dst net.IP
-			var sport, dport uint16
-			var err error
+			// the UDP and TCP entry points are objects: a caller may run the same object again (the server
+			// does one object per run, a library user need not) — every run must put ITS endpoints on the wire
 			paris := rng.Bool()
-			// virtual clock: the entry points only touch real sockets for non-blocking calls (UDP
-			// connect, TCP listen), so they can run inside a bubble and are immune to CPU load
-			synctest.Test(t, func(t *testing.T) {
-				switch proto {
-				case "icmp":
-					r, e := icmp.RunICMPTraceroute(context.Background(), icmp.Params{Target: target, ParallelParams: common.TracerouteParallelParams{TracerouteParams: common.TracerouteParams{
-						MinTTL: 1, MaxTTL: 3, TracerouteTimeout: 30 * time.Millisecond, PollFrequency: 10 * time.Millisecond, SendDelay: time.Millisecond}}})
-					err = e
-					if e == nil {
-						src, dst = r.Source.IPAddress, r.Destination.IPAddress
-					}
-				case "udp":
-					r, e := udp.NewUDPv4(net.IP(target.AsSlice()), port, 1, 3, time.Millisecond, 30*time.Millisecond, false).Traceroute()
-					err = e
-					if e == nil {
-						src, dst, sport, dport = r.Source.IPAddress, r.Destination.IPAddress, r.Source.Port, r.Destination.Port
-					}
-				case "tcp":
-					r, e := tcp.NewTCPv4(net.IP(target.AsSlice()), port, 1, 3, time.Millisecond, 30*time.Millisecond, paris, false).Traceroute()
-					err = e
-					if e == nil {
-						src, dst, sport, dport = r.Source.IPAddress, r.Destination.IPAddress, r.Source.Port, r.Destination.Port
-					}
-				}
-			})
-			packets.VerifSetSourceSinkFactory(nil)
-			replay := map[string]any{"protocol": proto, "target": target.String(), "port": port}
-			if err != nil || wire == nil {
-				rep.Violate(hx.Violation{Kind: "spec", What: fmt.Sprintf("entry point failed over the seam: %v", err), Sig: map[string]string{"stream": "endpoints", "protocol": proto}, Replay: replay})
-				continue
+			udpObj := udp.NewUDPv4(net.IP(target.AsSlice()), port, 1, 3, time.Millisecond, 30*time.Millisecond, false)
+			tcpObj := tcp.NewTCPv4(net.IP(target.AsSlice()), port, 1, 3, time.Millisecond, 30*time.Millisecond, paris, false)
+			reps := 1
+			if proto != "icmp" {
+				reps = rng.Range(1, 3)
 			}
-			wire.log.mu.Lock()
-			ws := append([]wireWrite(nil), wire.log.writes...)
-			wire.log.mu.Unlock()
-			for _, w := range ws {
-				rep.Case("endpoints/"+proto, hx2(w.Pkt), true, nil)
-				p := w.Pkt
-				bad := ""
-				if !net.IP(p[12:16]).Equal(src) || !net.IP(p[16:20]).Equal(dst) {
-					bad = fmt.Sprintf("reported %s -> %s but the wire carried %s -> %s", src, dst, net.IP(p[12:16]), net.IP(p[16:20]))
+			for rep_ := 0; rep_ < reps; rep_++ {
+				var wire *memWire
+				packets.VerifSetSourceSinkFactory(func(addr netip.Addr, _ bool) (packets.SourceSinkHandle, bool, error) {
+					wire = newMemWire()
+					wire.blockWhenEmpty = true
+					return wire.Handle(), true, nil
+				})
+				var src, dst net.IP
+				var sport, dport uint16
+				var err error
+				// virtual clock: the entry points only touch real sockets for non-blocking calls (UDP
+				// connect, TCP listen), so they can run inside a bubble and are immune to CPU load
+				synctest.Test(t, func(t *testing.T) {
+					switch proto {
+					case "icmp":
+						r, e := icmp.RunICMPTraceroute(context.Background(), icmp.Params{Target: target, ParallelParams: common.TracerouteParallelParams{TracerouteParams: common.TracerouteParams{
+							MinTTL: 1, MaxTTL: 3, TracerouteTimeout: 30 * time.Millisecond, PollFrequency: 10 * time.Millisecond, SendDelay: time.Millisecond}}})
+						err = e
+						if e == nil {
+							src, dst = r.Source.IPAddress, r.Destination.IPAddress
+						}
+					case "udp":
+						r, e := udpObj.Traceroute()
+						err = e
+						if e == nil {
+							src, dst, sport, dport = r.Source.IPAddress, r.Destination.IPAddress, r.Source.Port, r.Destination.Port
+						}
+					case "tcp":
+						r, e := tcpObj.Traceroute()
+						err = e
+						if e == nil {
+							src, dst, sport, dport = r.Source.IPAddress, r.Destination.IPAddress, r.Source.Port, r.Destination.Port
+						}
+					}
+				})
+				packets.VerifSetSourceSinkFactory(nil)
+				replay := map[string]any{"protocol": proto, "target": target.String(), "port": port, "run_on_the_same_object": rep_ + 1}
+				if err != nil || wire == nil {
+					rep.Violate(hx.Violation{Kind: "spec", What: fmt.Sprintf("entry point failed over the seam: %v", err), Sig: map[string]string{"stream": "endpoints", "protocol": proto}, Replay: replay})
+					continue
 				}
-				if proto != "icmp" && (binary.BigEndian.Uint16(p[20:]) != sport || binary.BigEndian.Uint16(p[22:]) != dport) {
-					bad = fmt.Sprintf("reported ports %d -> %d but the wire carried %d -> %d", sport, dport, binary.BigEndian.Uint16(p[20:]), binary.BigEndian.Uint16(p[22:]))
+				wire.log.mu.Lock()
+				ws := append([]wireWrite(nil), wire.log.writes...)
+				wire.log.mu.Unlock()
+				for _, w := range ws {
+					rep.Case("endpoints/"+proto, hx2(w.Pkt), true, nil)
+					p := w.Pkt
+					bad := ""
+					if !net.IP(p[12:16]).Equal(src) || !net.IP(p[16:20]).Equal(dst) {
+						bad = fmt.Sprintf("reported %s -> %s but the wire carried %s -> %s", src, dst, net.IP(p[12:16]), net.IP(p[16:20]))
+					}
+					if proto != "icmp" && (binary.BigEndian.Uint16(p[20:]) != sport || binary.BigEndian.Uint16(p[22:]) != dport) {
+						bad = fmt.Sprintf("reported ports %d -> %d but the wire carried %d -> %d", sport, dport, binary.BigEndian.Uint16(p[20:]), binary.BigEndian.Uint16(p[22:]))
+					}
+					if proto != "icmp" && dport != port {
+						bad = fmt.Sprintf("requested port %d but probes went to %d", port, dport)
+					}
+					if bad != "" {
+						replay["probe"] = hx2(p)
+						rep.Violate(hx.Violation{Kind: "spec", What: "reported endpoints are not the ones on the wire: " + bad, Sig: map[string]string{"stream": "endpoints", "protocol": proto}, Replay: replay})
+						break
+					}
 				}
-				if proto != "icmp" && dport != port {
-					bad = fmt.Sprintf("requested port %d but probes went to %d", port, dport)
+				if len(ws) != 3 {
+					rep.Violate(hx.Violation{Kind: "spec", What: fmt.Sprintf("expected 3 probes on the wire, saw %d", len(ws)), Sig: map[string]string{"stream": "endpoints", "protocol": proto}, Replay: replay})
 				}
-				if bad != "" {
-					replay["probe"] = hx2(p)
-					rep.Violate(hx.Violation{Kind: "spec", What: "reported endpoints are not the ones on the wire: " + bad, Sig: map[string]string{"stream": "endpoints", "protocol": proto}, Replay: replay})
-					break
-				}
-			}
-			if len(ws) != 3 {
-				rep.Violate(hx.Violation{Kind: "spec", What: fmt.Sprintf("expected 3 probes on the wire, saw %d", len(ws)), Sig: map[string]string{"stream": "endpoints", "protocol": proto}, Replay: replay})
+				rep.Hit(fmt.Sprintf("endpoints:%s:run-%d-on-the-object", proto, rep_+1))
 			}
 		}
 	}
